@@ -57,10 +57,7 @@ theorem request_body_no_directives (enc : JVal → String) (defNs : String) (cmp
     (rf : Rf) (owner : Owner) (stored : Option JVal) (req : Request) (b : JVal)
     (h : (reconcile enc defNs cmp pp rf owner stored).request = some req) (hb : req.body = some b) :
     noDirectiveKey b = true := by
-  have h' : (reconcileKrm enc defNs cmp rf owner stored).request = some req := by
-    unfold reconcile at h
-    cases pp <;> simp at h
-    exact h
+  have h' : (reconcileKrm enc defNs cmp rf owner stored).request = some req := Rf.request_of_reconcile h
   rcases Rf.request_cases enc defNs cmp rf owner stored req h' with
     ⟨_, _, _, _, view, p, _, hp, hq⟩ | ⟨live, e, p, _, _, _, _, _, hp, hq⟩ | ⟨live, _, hq⟩
   · have hpn : noDirectiveKey p = true := by
@@ -151,10 +148,7 @@ where
   toKrm {enc : JVal → String} {defNs : String} {cmp : JVal → JVal → Bool} {pp : Bool}
       {rf : Rf} {owner : Owner} {stored : Option JVal} {req : Request}
       (h : (reconcile enc defNs cmp pp rf owner stored).request = some req) :
-      (reconcileKrm enc defNs cmp rf owner stored).request = some req := by
-    unfold reconcile at h
-    cases pp <;> simp at h
-    exact h
+      (reconcileKrm enc defNs cmp rf owner stored).request = some req := Rf.request_of_reconcile h
 
 /-- … and — when the target (after create.overlay) does not itself list the parent — only then:
     `ownerRef ∈ created.ownerReferences ↔ owned ∧ ownerNs = ns` -/
